@@ -105,8 +105,13 @@ pub fn cli(args: &[String]) -> i32 {
                 let mut total = 0;
                 for prop in ALL_PROPS {
                     let props: Vec<String> = vec![prop.to_string()];
-                    let mut a = batch(prop, base_seed(), n, 16, 600, &props).per_run;
-                    let mut b = batch(prop, base_seed(), n, 3, 600, &props).per_run;
+                    let ba = batch(prop, base_seed(), n, 16, 600, &props);
+                    let bb = batch(prop, base_seed(), n, 3, 600, &props);
+                    for c in ba.crashed.iter().chain(bb.crashed.iter()) {
+                        // a child that timed out or died is a harness problem, not nondeterminism
+                        println!("CHILD-PROBLEM property={} {}", prop, c);
+                    }
+                    let (mut a, mut b) = (ba.per_run, bb.per_run);
                     a.sort();
                     b.sort();
                     total += a.len();
